@@ -14,7 +14,9 @@ import sys
 import time
 import warnings
 
-sys.path.insert(0, os.path.dirname(os.path.abspath(__file__)))
+_HERE = os.path.dirname(os.path.abspath(__file__))
+if _HERE not in sys.path:
+    sys.path.insert(0, _HERE)
 
 # --------------------------------------------------------------------------------------
 # reference semantics (own dim-string parser + brute-force matcher)
@@ -492,10 +494,10 @@ def make_specs(tier, seed):
             specs.append(dict(params=(t0, t1), ret=tr, cases=cases, perms="all", dataclass=(tr == "..."), stratum="A"))
     # stratum B (sampled): <=2-token dims, 1..3 (thorough: 1..4) parameters, shapes of rank 0..2
     if tier == "quick":
-        plan = {1: 80, 2: 280, 3: 280}
+        plan = {1: 60, 2: 220, 3: 220}
         n_guided, n_random, max_perms = 3, 2, 3
     else:
-        plan = {1: 700, 2: 2200, 3: 2200, 4: 900}
+        plan = {1: 400, 2: 1300, 3: 1300, 4: 500}
         n_guided, n_random, max_perms = 5, 2, 6
     seen = set()
     for n_params, count in plan.items():
@@ -631,6 +633,13 @@ def run_spec(spec):
                     dims_varying.append(label)
             acc = sorted(str(k) for k, v in verdicts.items() if v)
             rej = sorted(str(k) for k, v in verdicts.items() if not v)
+            k_acc = min(k for k, v in verdicts.items() if v)
+            k_rej = min(k for k, v in verdicts.items() if not v)
+            shapes = dict(zip(names, case))
+            two = []
+            for (k_order, k_style, k_checker, k_passing), verdict in ((k_acc, "accepted"), (k_rej, "rejected")):
+                two.append(f"# variant that is {verdict}:\n" + snippet_for(form, k_style, k_checker, list(k_order), dims, ret, shapes,
+                                                                          case[-1] if form == "function" else (), k_passing))
             failures.append(
                 dict(
                     case=f"verdict-independence:{form}:varies-with-{'+'.join(dims_varying) or 'combination'}",
@@ -638,8 +647,7 @@ def run_spec(spec):
                     input=dict(form=form, annotations=dims, return_annotation=ret if form == "function" else None, shapes=[list(s) for s in case]),
                     expected="same verdict for every (order, spelling, checker, passing)",
                     actual=dict(accepting=acc[:4], rejecting=rej[:4], n_accepting=len(acc), n_rejecting=len(rej)),
-                    snippet="# see the accompanying accept-iff-satisfiable failure of the same annotations/shapes for a direct reproduction\n"
-                    + function_source("f", names, anns, ann_expr(ret) if form == "function" else None),
+                    snippet="\n".join(two),
                 )
             )
     for case in spec["cases"]:
@@ -675,6 +683,9 @@ def run_parallel(worker, items, repo, procs, chunk=8):
     if procs <= 1 or len(chunks) <= 1:
         _init_worker(repo)
         return [r for c in chunks for r in worker(c)]
+    # the workers' str hashes are pinned: beartype orders Union members through sets, so which alternative it tries
+    # first (and hence how often a stale-binding message shows up) would otherwise vary from run to run
+    os.environ["PYTHONHASHSEED"] = "0"
     ctx = mp.get_context("spawn")
     with ctx.Pool(min(procs, len(chunks)), initializer=_init_worker, initargs=(repo,)) as pool:
         res = pool.map(worker, chunks, chunksize=1)
@@ -682,16 +693,22 @@ def run_parallel(worker, items, repo, procs, chunk=8):
 
 
 def merge_failures(tally, failures):
-    """one reported failure per stable case id (first witness in deterministic order) + occurrence count."""
-    by_case = {}
+    """one reported failure per stable case id (first witness in deterministic order) + occurrence count.
+    A failure carrying a 'dedupe' key is counted once per distinct value of it (distinct inputs)."""
+    by_case, seen = {}, {}
     for f in failures:
         c = f["case"]
-        if c in by_case:
-            by_case[c]["occurrences"] += 1
-        else:
-            f = dict(f)
-            f["occurrences"] = 1
+        f = dict(f)
+        d = f.pop("dedupe", None)
+        if c not in by_case:
+            f["occurrences"] = 0
             by_case[c] = f
+            seen[c] = set()
+        if d is None:
+            by_case[c]["occurrences"] += 1
+        elif d not in seen[c]:
+            seen[c].add(d)
+            by_case[c]["occurrences"] += 1
     for c in by_case:
         f = by_case[c]
         tally.fail(f.pop("case"), f.pop("clause"), **f)
@@ -701,7 +718,7 @@ def main():
     import _common
 
     a = _common.setup("C02 bounded stand-in: accepted iff one consistent assignment exists")
-    procs = min(8, os.cpu_count() or 1)
+    procs = max(1, min(6, (os.cpu_count() or 3) - 2))  # workers; + this parent + the spawn resource tracker = at most 8 processes
     specs = make_specs(a.tier, a.seed)
     results = run_parallel(_worker, specs, a.repo, procs)
     tally = _common.Tally()
@@ -721,6 +738,8 @@ def main():
     nA = sum(1 for s in specs if s["stratum"] == "A")
     nB = len(specs) - nA
     ncases = sum(len(s["cases"]) for s in specs)
+    max_cases = max(len(s["cases"]) for s in specs if s["stratum"] == "B")
+    max_perms = max(len(s["perms"]) for s in specs if s["stratum"] == "B")
     if a.tier == "quick":
         bound = (
             f"stratum A (exhaustive): all {nA} two-parameter functions whose dims are ONE token of "
@@ -728,7 +747,7 @@ def main():
             "of rank<=1 over sizes {1,2,3}; "
             f"stratum B (seeded sample): {nB} distinct functions with 1..3 parameters + return annotation, dims = <=2 tokens of the same alphabet "
             "(<=1 multi-axis token; a+1 only in a parameter after one holding a plain `a`, or in the return annotation if some parameter holds a plain `a`), "
-            "<=8 argument/return shape tuples each of rank 0..2 over sizes {1,2,3}; every case x <=3 valid parameter orders (all orders in A) x "
+            f"<={max_cases} argument/return shape tuples each of rank 0..2 over sizes {{1,2,3}}; every case x <={max_perms} valid parameter orders (all orders in A) x "
             "{new,old spelling} x {typeguard 2.13,beartype} x {positional,keyword}; every third B function and all A functions also as a jaxtyped dataclass "
             f"(fields = the parameters, no return) x both checkers x orders x passing. {ncases} (function, shapes) cases in total."
         )
@@ -738,7 +757,7 @@ def main():
             "{a,b,#a,_,2,*c,*#c,...,a+1} (a+1 only after a plain `a` parameter) x all 64 triples of shapes of rank<=1 over sizes {1,2,3}; "
             f"stratum B (seeded sample): {nB} distinct functions with 1..4 parameters + return annotation, dims = <=2 tokens of the same alphabet "
             "(<=1 multi-axis token; a+1 only in a parameter after one holding a plain `a`, or in the return annotation if some parameter holds a plain `a`), "
-            "<=12 argument/return shape tuples each of rank 0..2 over sizes {1,2,3}; every case x <=6 valid parameter orders (all orders in A) x "
+            f"<={max_cases} argument/return shape tuples each of rank 0..2 over sizes {{1,2,3}}; every case x <={max_perms} valid parameter orders (all orders in A) x "
             "{new,old spelling} x {typeguard 2.13,beartype} x {positional,keyword}; every third B function (and A functions returning '...') also as a jaxtyped "
             f"dataclass x both checkers x orders x passing. {ncases} (function, shapes) cases in total."
         )
@@ -752,7 +771,7 @@ def main():
         "A (function, shapes) case counts as distinct/non-trivial when some axis name or '*name' occurs in >=2 of its annotations or it has a symbolic axis; "
         "re-runs of it under other orders/checkers/spellings/passing are evaluations, not new cases."
     )
-    _common.emit(tally, bound=bound, rule=rule, exhaustive=False, wall_s=round(time.time() - a.t0, 1), processes=procs,
+    _common.emit(tally, bound=bound, rule=rule, exhaustive=False, wall_s=round(time.time() - a.t0, 1), processes=procs + 2,
                  oracle_accept_cases=n_acc, oracle_reject_cases=n_rej)
 
 
